@@ -2,4 +2,6 @@
 open Model
 let table : (string * (z list -> z list)) list = [
   "c20", c20_entry;
+  "c12", c12_entry;
+  "c12_lin", c12_lin_entry;
 ]
